@@ -394,7 +394,8 @@ pub struct Spec {
     /// the scrutinee is first bound to a variable, which is then matched twice with the same matrix
     pub twice: bool,
     /// the scrutinee is held in a variable; every arm of the match on it matches it again
-    pub nested: bool,
+    /// (1: directly; 2: inside both arms of a match on a variable of another enum type)
+    pub nested: u8,
 }
 
 pub fn build(spec: &Spec, depth: u32) -> Program {
@@ -402,6 +403,9 @@ pub fn build(spec: &Spec, depth: u32) -> Program {
     let pt = pt_of(&spec.ty);
     let pats = patterns(&pt, depth);
     let mut items = type_items(&mut n);
+    if spec.nested == 2 {
+        items.push(Item::Enum(EnumDef { name: "Mid".into(), generics: vec![], variants: vec![("Ma".into(), vec![]), ("Mb".into(), vec![Ty::i32()])], derives: vec![] }));
+    }
     // scrutinee probe
     let sv = n.fresh("sv");
     items.push(fn_def("scr", vec![(sv, ty_of(&pt))], Some(ty_of(&pt)), block(vec![st(println(s("scrutinee")))], Some(v(sv)))));
@@ -434,9 +438,10 @@ pub fn build(spec: &Spec, depth: u32) -> Program {
         if spec.catch_all {
             arms.push(arm(spec.rows.len(), &Pat::Wild, &mut n));
         }
-        if spec.nested {
+        if spec.nested > 0 {
             // every arm of the match on `held` matches `held` again (same matrix)
             let held = n.fresh("held");
+            let mid = n.fresh("mid");
             let mut all_rows: Vec<Pat> = spec.rows.iter().map(|r| pats[*r].clone()).collect();
             if spec.catch_all {
                 all_rows.push(Pat::Wild);
@@ -448,7 +453,23 @@ pub fn build(spec: &Spec, depth: u32) -> Program {
                 for (j, q) in all_rows.iter().enumerate() {
                     inner.push(arm(j + 20, q, &mut n));
                 }
-                let inner_m = E::Match(Box::new(v(held)), inner);
+                let inner_m = if spec.nested == 2 {
+                    // match held { p => match mid { Ma => match held {..}, Mb(_) => match held {..} } }
+                    let mut inner2 = Vec::new();
+                    for (j, q) in all_rows.iter().enumerate() {
+                        inner2.push(arm(j + 40, q, &mut n));
+                    }
+                    let w = n.fresh("w");
+                    E::Match(
+                        Box::new(v(mid)),
+                        vec![
+                            (Pat::Ctor("Mid".into(), "Ma".into(), false, vec![]), E::Match(Box::new(v(held)), inner2)),
+                            (Pat::Ctor("Mid".into(), "Mb".into(), false, vec![Pat::Var(w)]), block(vec![st(println(add(s("mid "), i2s(v(w)))))], Some(E::Match(Box::new(v(held)), inner)))),
+                        ],
+                    )
+                } else {
+                    E::Match(Box::new(v(held)), inner)
+                };
                 let combined = match body {
                     E::Block(mut stmts, tail) => {
                         if spec.int_result {
@@ -464,7 +485,11 @@ pub fn build(spec: &Spec, depth: u32) -> Program {
                 };
                 outer.push((pi, combined));
             }
-            block(vec![let_(held, call("scr", vec![v(arg)]))], Some(E::Match(Box::new(v(held)), outer)))
+            let mut pre = vec![let_(held, call("scr", vec![v(arg)]))];
+            if spec.nested == 2 {
+                pre.push(let_(mid, E::Ctor("Mid".into(), "Mb".into(), false, vec![int(3)], vec![])));
+            }
+            block(pre, Some(E::Match(Box::new(v(held)), outer)))
         } else if spec.twice {
             // the same variable is the scrutinee of two matches
             let held = n.fresh("held");
@@ -543,7 +568,7 @@ fn specs(tier: Tier) -> Vec<Spec> {
         let np = patterns(&pt, depth_for(ty)).len();
         // destructuring let: every pattern
         for r in 0..np {
-            out.push(Spec { ty: ty.into(), rows: vec![r], catch_all: false, int_result: false, as_let: true, only_value: None, twice: false, nested: false });
+            out.push(Spec { ty: ty.into(), rows: vec![r], catch_all: false, int_result: false, as_let: true, only_value: None, twice: false, nested: 0 });
         }
         // rows: quick <= 3 for types with <= 12 patterns, else 2; thorough <= 4 / <= 3 (<= 30 patterns) / 2
         let maxr = match (tier == Tier::Quick, np) {
@@ -566,11 +591,12 @@ fn specs(tier: Tier) -> Vec<Spec> {
                         if rcount == 4 && (int_result || (np > 7 && !catch_all)) {
                             continue;
                         }
-                        out.push(Spec { ty: ty.into(), rows: idx.clone(), catch_all, int_result, as_let: false, only_value: None, twice: false, nested: false });
+                        out.push(Spec { ty: ty.into(), rows: idx.clone(), catch_all, int_result, as_let: false, only_value: None, twice: false, nested: 0 });
                         if rcount <= 2 && np <= 30 && !(tier == Tier::Quick && rcount == 2 && np > 12) {
-                            out.push(Spec { ty: ty.into(), rows: idx.clone(), catch_all, int_result, as_let: false, only_value: None, twice: true, nested: false });
+                            out.push(Spec { ty: ty.into(), rows: idx.clone(), catch_all, int_result, as_let: false, only_value: None, twice: true, nested: 0 });
                             if rcount <= 2 && np <= 14 {
-                                out.push(Spec { ty: ty.into(), rows: idx.clone(), catch_all, int_result, as_let: false, only_value: None, twice: false, nested: true });
+                                out.push(Spec { ty: ty.into(), rows: idx.clone(), catch_all, int_result, as_let: false, only_value: None, twice: false, nested: 1 });
+                                out.push(Spec { ty: ty.into(), rows: idx.clone(), catch_all, int_result, as_let: false, only_value: None, twice: false, nested: 2 });
                             }
                         }
                     }
@@ -608,7 +634,7 @@ fn specs(tier: Tier) -> Vec<Spec> {
             let n = sel.len();
             for code in 0..n.pow(4) {
                 let rows = vec![sel[code / (n * n * n)], sel[(code / (n * n)) % n], sel[(code / n) % n], sel[code % n]];
-                out.push(Spec { ty: ty.into(), rows, catch_all: true, int_result: false, as_let: false, only_value: None, twice: false, nested: false });
+                out.push(Spec { ty: ty.into(), rows, catch_all: true, int_result: false, as_let: false, only_value: None, twice: false, nested: 0 });
             }
         }
     }
@@ -632,7 +658,7 @@ fn specs(tier: Tier) -> Vec<Spec> {
             if strs < 3 {
                 continue;
             }
-            out.push(Spec { ty: ty.into(), rows, catch_all: true, int_result: false, as_let: false, only_value: None, twice: false, nested: false });
+            out.push(Spec { ty: ty.into(), rows, catch_all: true, int_result: false, as_let: false, only_value: None, twice: false, nested: 0 });
         }
     }
     out
@@ -646,7 +672,7 @@ impl Family for Patterns {
         &["C06", "C01", "C02", "C04"]
     }
     fn rule(&self) -> &'static str {
-        "scrutinee types {bool,int32,uint8,string,(bool,bool),(bool,int32),E,Opt[bool],S,(E2,E2),(int32,int32),(string,int32),(int32,string),(int32,int32,int32),unit,(E2,unit),(unit,E2),(bool,unit)}; all patterns (wildcard, variable, 2 literals, constructor/tuple/struct with sub-patterns; depth 2 for S, (E2,E2), (E2,unit) and (unit,E2); struct patterns with the fields in declaration order and in the other order; columns of all-literal-typed tuples use {_, lit0, lit1}); all matrices of <= 3 rows for types with <= 12 patterns, else <= 2 rows, plus the 4-row matrices of (int32,int32) over the 8 tuple patterns with a literal, with a catch-all (quick) / <= 4 rows for <= 12 patterns (unit result; tuple types with a catch-all only), <= 3 rows for <= 30 patterns, else 2 (thorough), with and without a trailing catch-all, results unit and int32; every destructuring let; matrices of <= 2 rows also with the scrutinee held in a variable that is matched twice, one match after the other and (types with <= 14 patterns) the second match inside every arm of the first; the 4-row matrices with a catch-all of (string,int32) and (int32,string) over a three-literal string alphabet in which at least three rows name a string literal; each matrix applied to every value of the type (one program per value when some value matches no row); the scrutinee is an effect probe; each arm prints its index and every variable it binds. non-trivial = matrices where a row other than the first is selected for some value, or some value matches no row; distinct = distinct source text"
+        "scrutinee types {bool,int32,uint8,string,(bool,bool),(bool,int32),E,Opt[bool],S,(E2,E2),(int32,int32),(string,int32),(int32,string),(int32,int32,int32),unit,(E2,unit),(unit,E2),(bool,unit)}; all patterns (wildcard, variable, 2 literals, constructor/tuple/struct with sub-patterns; depth 2 for S, (E2,E2), (E2,unit) and (unit,E2); struct patterns with the fields in declaration order and in the other order; columns of all-literal-typed tuples use {_, lit0, lit1}); all matrices of <= 3 rows for types with <= 12 patterns, else <= 2 rows, plus the 4-row matrices of (int32,int32) over the 8 tuple patterns with a literal, with a catch-all (quick) / <= 4 rows for <= 12 patterns (unit result; tuple types with a catch-all only), <= 3 rows for <= 30 patterns, else 2 (thorough), with and without a trailing catch-all, results unit and int32; every destructuring let; matrices of <= 2 rows also with the scrutinee held in a variable that is matched twice, one match after the other and (types with <= 14 patterns) the second match inside every arm of the first, directly and inside both arms of a match on a variable of another enum type; the 4-row matrices with a catch-all of (string,int32) and (int32,string) over a three-literal string alphabet in which at least three rows name a string literal; each matrix applied to every value of the type (one program per value when some value matches no row); the scrutinee is an effect probe; each arm prints its index and every variable it binds. non-trivial = matrices where a row other than the first is selected for some value, or some value matches no row; distinct = distinct source text"
     }
     fn cases(&self, tier: Tier) -> Box<dyn Iterator<Item = Value> + '_> {
         let n = specs(tier).len();
@@ -691,7 +717,7 @@ impl Family for Patterns {
                 if spec.int_result { "int32" } else { "unit" },
                 if spec.as_let { "let" } else { "match" },
                 lit,
-                if spec.nested { ";nested" } else if spec.twice { ";twice" } else { "" }
+                if spec.nested == 2 { ";nested-under-other-match" } else if spec.nested == 1 { ";nested" } else if spec.twice { ";twice" } else { "" }
             );
             for var in variants {
                 count += 1;
